@@ -37,6 +37,7 @@ MODELS_USED = []
 ASSUMPTIONS = ["pydantic-core's own ge/le/enum/coercion code and key normalisation are exercised only concretely (constructor catalogue)",
                "oracles/approved_constants.json is a regression oracle captured from the pinned commit"]
 EXPECTED_REGIMES = ["lock trips on a changed developer field", "developer mode accepts the change", "non-developer field changed", "nested developer field changed",
+                    "nested block handed over as an object of a sibling class",
                     "cross-field validator rejects"]
 DAILY_CLASSES = {"daily": st.DailySettings, "legacy": st.DailyLegacySettings, "billing": BillingSettings}
 
@@ -142,10 +143,17 @@ def alt_value(cls, k, v, tag, env=None):
     raise TypeError(f"no alternative for {k}={v!r}")
 
 
-def build(cls, overrides, split_overrides=None):
+SPLIT_CLASSES = [st.Split_Selection_Definition, st.Split_Selection_Legacy_Definition]
+
+
+def build(cls, overrides, split_overrides=None, split_cls=None):
     base = defaults_of(cls)
     ss_cls = type(base["split_selection"])
     ssd = {k: getattr(base["split_selection"], k) for k in ss_cls.model_fields}
+    if split_cls is not None and split_cls is not ss_cls:  # nested block handed over as an object of a sibling class, carrying that class's own defaults
+        ss_cls = split_cls
+        own = split_cls()
+        ssd = {k: getattr(own, k) for k in split_cls.model_fields}
     ssd.update(split_overrides or {})
     base["split_selection"] = ss_cls.model_construct(**ssd)
     base.update(overrides)
@@ -171,6 +179,7 @@ def run_lock(case, key, all_at_once):
     nested = list(ss_cls.model_fields)
     nondev = [k for k in nondev_fields(cls) if k not in ("developer_mode", "silent_developer_mode", "season", "weekday_weekend")]
     targets = [("top", k) for k in top] + [("nested", k) for k in nested] + [("nondev", k) for k in nondev] + [("nondev", "season"), ("nondev", "weekday_weekend")]
+    targets += [("nestedcls", c.__name__) for c in SPLIT_CLASSES]
     numeric_top = [k for k in top if isinstance(base[k], (int, float)) and not isinstance(base[k], bool)]
     numeric_nested = [k for k in nested if isinstance(ss_def[k], (int, float)) and not isinstance(ss_def[k], bool)]
     inputs = set()
@@ -197,6 +206,8 @@ def run_lock(case, key, all_at_once):
                 case.regime("lock trips on a changed developer field")
                 if which[0][0] == "nested":
                     case.regime("nested developer field changed")
+                if which[0][0] == "nestedcls":
+                    case.regime("nested block handed over as an object of a sibling class")
             if dev and out == "accept" and which[0][0] != "nondev":
                 case.regime("developer mode accepts the change")
             if nd_changed and out == "accept" and not dev:
@@ -213,9 +224,14 @@ def lock_scenario(key, which, env):
     ss_def = {k: getattr(base["split_selection"], k) for k in ss_cls.model_fields}
     sym = env is None
     dev = F.choose("developer_mode", [False, True]) if sym else [False, True][int(env.get("developer_mode", 0))]
-    ov, sov, differs, nd_changed = {}, {}, [], False
+    ov, sov, differs, nd_changed, split_cls = {}, {}, [], False, None
     for lvl, k in which:
-        if lvl == "top":
+        if lvl == "nestedcls":
+            split_cls = [c for c in SPLIT_CLASSES if c.__name__ == k][0]
+            own = split_cls()
+            d = any(f.json_schema_extra["developer"] and getattr(own, n) != ss_def[n] for n, f in split_cls.model_fields.items())
+            differs.append(z3.BoolVal(d) if sym else d)
+        elif lvl == "top":
             ov[k], d = alt_value(cls, k, base[k], f"t_{k}", env)
             differs.append(d)
         elif lvl == "nested":
@@ -231,7 +247,7 @@ def lock_scenario(key, which, env):
             nd_changed = True
     ov["developer_mode"] = dev
     ov["silent_developer_mode"] = True
-    obj = build(cls, ov, sov)
+    obj = build(cls, ov, sov, split_cls)
     try:
         r = validator(cls, "_check_developer_mode")(obj)
         out = "accept" if r is obj else "other"
@@ -599,6 +615,13 @@ def constructor_catalogue():
                 continue
             items.append((f"{cls.__name__}(split_selection={{{k!r}: {a!r}}})", (lambda c, k, a: lambda: c(split_selection={k: a}))(cls, k, a), "reject"))
             items.append((f"{cls.__name__}(SPLIT_SELECTION={{{k.upper()!r}: {a!r}}})", (lambda c, k, a: lambda: c(**{"SPLIT_SELECTION": {k.upper(): a}}))(cls, k, a), "reject"))
+        for scls in SPLIT_CLASSES:  # nested block handed over as an object (own or sibling class)
+            own, dflt = scls(), base["split_selection"]
+            differs = any(f.json_schema_extra["developer"] and getattr(own, n) != getattr(dflt, n) for n, f in scls.model_fields.items())
+            fits = isinstance(own, type(dflt))  # an object that is not of the declared block type is an invalid value
+            items.append((f"{cls.__name__}(split_selection={scls.__name__}())", (lambda c, sc: lambda: c(split_selection=sc()))(cls, scls), "reject" if differs or not fits else "accept"))
+            items.append((f"{cls.__name__}(split_selection={scls.__name__}(), developer_mode=True)",
+                          (lambda c, sc: lambda: c(split_selection=sc(), developer_mode=True, silent_developer_mode=True))(cls, scls), "accept" if fits else "reject"))
         items.append((f"{cls.__name__}(uncertainty_alpha=0.2)", (lambda c: lambda: c(uncertainty_alpha=0.2))(cls), "accept"))
         items.append((f"{cls.__name__}(season={{'january': 'Summer '}})", (lambda c: lambda: c(season={"January": "Summer "}))(cls), "accept"))
         items.append((f"{cls.__name__}(season={{'january': 'spring'}})", (lambda c: lambda: c(season={"january": "spring"}))(cls), "reject"))
